@@ -19,9 +19,12 @@ func init() {
 		Obligs: func(tier string) []Oblig {
 			var r []Oblig
 			noPred := []string{"vmMatchPred"}
-			maxParts, maxOpts, maxTags := 4, 2, 2
+			// +build lines with several options or tags: every such obligation exhausted its time
+			// budget in a 44 min thorough run (and splitting them by tag kind did not finish in 83 min):
+			// they are not part of any tier; such lines are outside the claim
+			maxParts, maxOpts, maxTags := 4, 1, 1
 			if tier == "thorough" {
-				maxParts, maxOpts, maxTags = 5, 2, 2
+				maxParts = 5
 			}
 			// heaviest first: the workers then finish together
 			for parts := maxParts; parts >= 1; parts-- {
@@ -49,12 +52,11 @@ func init() {
 							}
 							continue
 						}
-						// several tags: one obligation per tag kind (all the tags of the line of that kind);
-						// lines mixing kinds did not finish within the time budget (44 min run, 8 obligations
-						// inconclusive) and are outside the claim
-						for kind := 0; kind <= 3; kind++ {
-							r = append(r, Oblig{Harness: "vh_C17_line", DropRedirects: noPred, Unroll: 8, Globals: map[string]int{"vhLineKind": 0, "vhNOpts": opts, "vhNTags": tags, "vhGapAt": gap, "vhTagKind": kind}})
-						}
+						// several tags, any mix of kinds: the largest of these obligations exhaust their time
+						// budget (44 min run: 8 of 132 obligations) and are then reported as inconclusive, i.e.
+						// the claim of the thorough tier for multi-tag lines is the part the evidence lists as discharged;
+						// splitting them by tag kind was tried and did not finish in 83 min
+						r = append(r, Oblig{Harness: "vh_C17_line", DropRedirects: noPred, Unroll: 8, Globals: map[string]int{"vhLineKind": 0, "vhNOpts": opts, "vhNTags": tags, "vhGapAt": gap, "vhTagKind": -1}})
 					}
 				}
 			}
@@ -90,7 +92,7 @@ func init() {
 			}
 			return r
 		},
-		Bounds:      []string{"file name: 1..4 (thorough 5) '_'-separated words of <= 11 bytes over [a-z0-9], optional .word / .word_word segment (with 4 words: thorough only), .go", "+build line: 1 option x 1 tag (thorough up to 2x2, all the tags of a line of the same kind) with !/!!, generic/go1.N/go1.junk/malformed words <= 8 bytes", "constraint header: optional //go:build line (10 expression shapes, <= 3 tags) + 0..1 (thorough 2) +build lines; +build-only headers of 1..2 (thorough 3) lines", "GOOS, GOARCH: any value of go/build's known lists", "release go1.1..go1.40", "one custom build tag <= 8 bytes"},
+		Bounds:      []string{"file name: 1..4 (thorough 5) '_'-separated words of <= 11 bytes over [a-z0-9], optional .word / .word_word segment (with 4 words: thorough only), .go", "+build line: 1 option x 1 tag with !/!!, generic/go1.N/go1.junk/malformed words <= 8 bytes (lines with several options or tags did not finish within the time budget and are outside the claim)", "constraint header: optional //go:build line (10 expression shapes, <= 3 tags) + 0..1 (thorough 2) +build lines; +build-only headers of 1..2 (thorough 3) lines", "GOOS, GOARCH: any value of go/build's known lists", "release go1.1..go1.40", "one custom build tag <= 8 bytes"},
 		Assumptions: []string{"symbolic strings are ASCII", "Context.Compiler, CgoEnabled, ToolTags empty (compiler/cgo tags outside the claim)", "file names contain no '/'"},
 	}
 }
